@@ -343,10 +343,16 @@ impl Watch {
 
     pub fn flag(&mut self, props: &[&'static str], class: impl Into<String>, msg: impl Into<String>) {
         if self.viol.is_none() {
+            let mut msg: String = msg.into();
+            if msg.len() > 700 {
+                let cut = (0..=700).rev().find(|i| msg.is_char_boundary(*i)).unwrap_or(0);
+                msg.truncate(cut);
+                msg.push_str(" ...");
+            }
             self.viol = Some(Violation {
                 props: props.to_vec(),
                 class: class.into(),
-                msg: msg.into(),
+                msg,
                 step: self.step,
             });
         }
